@@ -173,6 +173,43 @@ def st_jobs(ctx, inv):
     return jobs
 
 
+def siq_consts(**kw):
+    c = {'Threads': '<-ThreadsDef', 'Locs': '<-LocsDef', 'InitVal': '<-InitValDef', 'Ord': '<-OrdCode', 'Weak': False,
+         'NT': 2, 'MaxOps': 1, 'MaxOps0': 1, 'HeadBump': True, 'Recheck': True, 'ClearPending': True, 'MarkChecksStamp': True, 'Exits': False}
+    c.update(kw)
+    return c
+
+
+SIQ_ACTIONS = ['Enter', 'Leave', 'LoadStep', 'p_stn', 'p_faa', 'p_stpend', 'p_stprev', 'p_cas', 'p_ststamp', 'p_casnext', 'r_markprev', 'r_marknext', 'f_cas', 'n_cas',
+               'k_cas', 's_cas', 'm_cas', 'r_ststamp', 'r_ldprev2', 'u_cashead', 'u_ldts', 'u_cas']
+SIQ_INV = ['TailSafe', 'Asserts', 'QuiescentShape', 'ChainOk']
+
+
+def siq_jobs(ctx, pid):
+    """stamp_it::thread_order_queue at the grain of its atomic accesses (spec/impl/StampItQueue.tla): the lock-free doubly linked list of
+       control blocks with tags, delete marks, pending stamps and helping.  TailSafe is the C01 obligation the coarse spec StampIt assumes
+       (GuessOk); Asserts carries the code's assertions and NoLostTail (C02 / C17); ChainOk / QuiescentShape the shape of the list."""
+    q = ctx.quick
+    mc = lambda name, **kw: tlc_mc(ctx, name, 'StampItQueue', siq_consts(**kw.pop('c', {})), invariants=kw.pop('inv', SIQ_INV), view='mcview', **kw)
+    jobs = []
+    if pid in ('C01', 'C02'):
+        jobs += [lambda: mc('siq_2t', workers=6, tmo=900, must_cover=SIQ_ACTIONS)]
+    if pid == 'C01':
+        jobs += [lambda: mc('siq_toggle_head_stamp_without_bump', c={'HeadBump': False}, inv=['TailSafe'], workers=3, expect='violation')]
+    if pid == 'C17':
+        # threads exit after their region, later threads adopt the abandoned control blocks (stale links, stamps with NotInList, tags)
+        jobs += [lambda: mc('siq_2t_adopted_blocks', c={'Exits': True}, workers=6, tmo=900, must_cover=['ExitT'])]
+    if not q:
+        jobs += [
+            lambda: mc('siq_2t_reentry', c={'MaxOps0': 2}, workers=10, tmo=3000, heap='24g'),
+            lambda: mc('siq_3t', c={'NT': 3}, workers=10, tmo=3000, heap='24g'),
+            lambda: mc('siq_toggle_no_recheck_2_1', c={'MaxOps0': 2, 'Recheck': False}, workers=10, tmo=3000, heap='24g'),
+        ]
+        if pid != 'C17':
+            jobs += [lambda: mc('siq_2t_adopted_blocks', c={'Exits': True, 'MaxOps0': 2}, workers=10, tmo=3000, heap='24g', must_cover=['ExitT'])]
+    return jobs
+
+
 def tb_consts(**kw):
     c = {'Threads': '<-ThreadsDef', 'Locs': '<-LocsDef', 'InitVal': '<-InitValDef', 'Ord': '<-OrdCode', 'Weak': False,
          'NT': 2, 'NEntries': 3, 'NNodes': 3, 'Lives': 2, 'MaxRetire': 2, 'AdoptCas': True, 'ReuseFree': True}
@@ -259,6 +296,8 @@ def run_models(ctx, pid):
         jobs += lf_jobs(ctx, ['Safe'] if pid == 'C01' else ['Safe', 'NoLeak', 'CountsOk'])
     if pid in ('C01', 'C02', 'C17'):
         jobs += st_jobs(ctx, ['Safe', 'TailBound'] if pid == 'C01' else ['Safe', 'TailBound', 'NoLeak', 'OnLists'])
+    if pid in ('C01', 'C02', 'C17'):
+        jobs += siq_jobs(ctx, pid)
     if pid == 'C17':
         jobs += tb_jobs(ctx)
     if pid in ('C01', 'C18'):
